@@ -1,18 +1,31 @@
 #!/usr/bin/env python3
-"""Fail-closed translator: votelib/component/{divisor,quota,pairwin_scorer}.py -> Gallina.
+"""Fail-closed translator: arithmetic and expression-level code of votelib -> Gallina.
 
 usage: py2v.py <repo> <outdir>
-Writes <outdir>/Divisor.v, <outdir>/Quota.v, <outdir>/Pairwin.v and <outdir>/STATUS.json.
-Accepted subset (anything else raises Unsupported and the unit is marked failed):
+Writes <outdir>/{Divisor,Quota,Pairwin,Rankscore,Threshold,Approval,Openlist}.v and <outdir>/STATUS.json
+(per unit: status ok | partial | failed, per definition ok | "unsupported: <why> at line N: <ast node>").
+
+1. Untyped function translator (component/divisor.py, component/quota.py).  Accepted subset (anything else raises
+   Unsupported and the unit is marked failed):
   def f(a: int, b: int) -> T:  [docstring]  body
   body ::= return e | if c: body else: body
   e ::= int literal | name | e (+|-|*) e | e ** name | Fraction(e, e) | int(e) | math.ceil(e) | round(e)
       | f(e, ..) for an already translated f | e if c else e
   c ::= e (<|<=|>|>=|==) e | e.limit_denominator(2) == e
   closure rule: def outer(fx: Callable, coef = Decimal('..')): [isinstance-normalisation] def inner(order): .. ; return inner
-All numbers are rationals (Q); parameters annotated int are Z and injected.
+  All numbers are rationals (Q); parameters annotated int are Z and injected.
+2. Pairwise win scorers (component/pairwin_scorer.py): dict comprehensions over counts.items().
+3. Rank scorers (component/rankscore.py): the per-rank expression of scores() for Dowdall / Geometric / ModifiedBorda / FixedTop.
+4. Typed method translator (evaluate/threshold.py, evaluate/approval.py QuotaSelector, evaluate/openlist.py jump threshold
+   and jump test, component/rankscore.py select_padded / Borda / SequenceBased): see the comment above class TX for the
+   subset and TYPED_JOBS / RANK_TYPED for what is extracted from which method (whole body, the condition of a comprehension,
+   a loop's test, the statements up to a local).  Parameters of a generated definition are the attributes and arguments
+   the code reads, with declared types; locals and loop variables are bound by position, so renaming them changes nothing.
+The reading of the Python primitives is Prelude/PyNum.v and Prelude/PyList.v (trusted base).
+tools/gentie_selftest.py replays source edits (equivalent rewrites, semantic changes, untranslatable forms) against the
+translator and the Props/GenTie_*.v proofs.
 """
-import ast, sys, os, json
+import ast, sys, os, json, re
 from fractions import Fraction
 
 
@@ -176,6 +189,14 @@ def translate_fn(fd, known):
 HEADER = '''(* GENERATED by tools/py2v.py from %s -- do not edit. *)
 From Coq Require Import ZArith QArith.
 From VL Require Import Prelude.PyNum.
+Open Scope Q_scope.
+'''
+
+
+RANK_HEADER = '''(* GENERATED by tools/py2v.py from %s -- do not edit. *)
+From Coq Require Import ZArith QArith List Bool.
+From VL Require Import Prelude.PyDict Prelude.PyNum Prelude.PyList.
+Import ListNotations.
 Open Scope Q_scope.
 '''
 
@@ -356,6 +377,1188 @@ def translate_rankscore(path, wanted, module):
     return (HEADER % module) + '\n' + '\n\n'.join(out) + '\n', status, missing
 
 
+# ---------------------------------------------------------------- typed method translator
+# (evaluate/threshold.py, evaluate/approval.py QuotaSelector, evaluate/openlist.py jump test, rankscore.py Borda /
+#  SequenceBased / select_padded).  Values carry a type; int is Z, every other number Q (ints are injected where a
+#  rational is expected), lists are Coq lists, a votes dict is an association list.  Accepted subset:
+#    stmt ::= x = e | self.a = e | x += e (x a fresh list) | return e | raise Exc(..) | if c: .. [else: ..]
+#           | X = [] .. for v in e: ..; X.append(e)                              (-> map)
+#           | D = {} [S = set()] .. for k, v in e.items(): if c: D[k] = v [else: S.add(k)]   (-> filter; S is dead)
+#           | try: body except TypeError: raise RuntimeError(..)                 (-> body: typed values never raise TypeError)
+#           | def f(..): ..   (only usable as the key of sorted())
+#    e ::= int | name | self.a | e (+|-|*) e | l + l | l * e | not e | e and e | e or e | e (<|<=|>|>=|==|!=) e | e in l
+#        | e if c else e | Fraction(e, e) | len(e) | sum(e.values()) | votelib.util.sorted_votes(e) | range(e) | max/min(e, e)
+#        | e[:e] | [e, ..] | [e for x in e if c] | frozenset(e for x in e for y in e ..) | list(sorted(S, key=f)) (order dropped)
+#        | f(e, ..) for a translated function of the unit or a function-typed name | p.evaluate(votes[, prev_gains=prev_gains])
+#        | {k: e for x in e} | d.values() | d.get(k, e) | d[k] (k a key of d) | frozenset(l)
+#        | c.attr / c.meth() for a candidate c and a declared observer ('obs:attr' parameter: the attribute as a function)
+#        | x is (not) None as the test of an if statement, for a parameter declared optional
+#  Anything else raises Unsupported naming the node: the definition is marked failed (fail closed).
+# atomic types are 'Z' 'Q' 'B' 'C' and lowercase words; compound types are tuples tagged 'L' 'S' 'U' 'O' 'P' 'F' (no overlap, so
+# that ty[0] identifies a constructor also when ty is an atom)
+T_Z, T_Q, T_B, T_C = 'Z', 'Q', 'B', 'C'
+
+
+def TL(t):
+    return ('L', t)
+
+
+def TS(t):
+    return ('S', t)          # a Python set carried as a list; only membership is meaningful
+
+
+def TP(a, b):
+    return ('P', a, b)
+
+
+def TO(t):
+    return ('O', t)          # a value that may be None; only usable after an `is (not) None` test
+
+
+def TFUN(args, ret):
+    return ('F', tuple(args), ret)
+
+
+VOTES = TL(TP(T_C, T_Q))
+T_SEL = TFUN([VOTES], TL(T_C))       # a seatless selector: its evaluate(votes)
+T_STR = 'str'                         # a configuration string; only compared with literals
+T_RES = 'res'                         # an item of a get_n_best selection: candidate or Tie (Model/GetNBest.v res)
+T_PG = 'pg'                           # the prev_gains pass-through argument (never inspected by translated code)
+EXN = {'ValueError': 'PyValueError', 'RuntimeError': 'PyRuntimeError', 'TypeError': 'PyTypeError', 'KeyError': 'PyKeyError',
+       'IndexError': 'PyIndexError', 'ZeroDivisionError': 'PyZeroDivisionError', 'VotingSystemError': 'PyVotingSystemError',
+       'NotImplementedError': 'PyNotImplementedError'}
+
+
+def coq_type(t):
+    if t == T_Z:
+        return 'Z'
+    if t == T_Q:
+        return 'Q'
+    if t == T_B:
+        return 'bool'
+    if t == T_C:
+        return 'C'
+    if t == T_PG:
+        return 'unit'
+    if t == T_STR:
+        return 'String.string'
+    if t == T_RES:
+        return 'res C'
+    if t[0] in ('L', 'S', 'U'):
+        return 'list (%s)' % coq_type(t[1])
+    if t[0] == 'O':
+        return 'option (%s)' % coq_type(t[1])
+    if t[0] == 'P':
+        return '(%s * %s)' % (coq_type(t[1]), coq_type(t[2]))
+    if t[0] == 'F':
+        return '(%s)' % ' -> '.join([coq_type(a) for a in t[1]] + [coq_type(t[2])])
+    raise Unsupported('type %r' % (t,))
+
+
+def _is_doc(s):
+    return isinstance(s, ast.Expr) and isinstance(s.value, ast.Constant) and isinstance(s.value.value, str)
+
+
+def _terminates(stmts):
+    """every path through stmts ends in return / raise"""
+    stmts = [s for s in stmts if not _is_doc(s)]
+    if not stmts:
+        return False
+    s = stmts[-1]
+    if isinstance(s, (ast.Return, ast.Raise)):
+        return True
+    if isinstance(s, ast.If):
+        return _terminates(s.body) and _terminates(s.orelse)
+    if isinstance(s, ast.Try):
+        return _terminates(s.body)
+    return False
+
+
+def _mentions(node, name):
+    nodes = node if isinstance(node, list) else [node]
+    return any(isinstance(n, ast.Name) and n.id == name for x in nodes for n in ast.walk(x))
+
+
+class TX:
+    """one translated definition.  env: python reference ('x' or 'self.a') -> (coq text, type)"""
+
+    def __init__(self, known, raises):
+        self.known = known        # translated functions of the unit: name -> dict(params=[(name, type, default text|None)], ret=type, raises=bool)
+        self.raises = raises      # the definition returns value + pyexn
+        self.ret_type = None
+        self.notes = []
+        self.fresh = set()        # python names bound to a freshly built list (safe to extend in place)
+        self.reach = None         # 'reach' extraction: translate up to the assignment of this local (Some value); an earlier return gives None
+
+    # ---- types
+    def coerce(self, text, have, want, node):
+        if have == want:
+            return text
+        if have == T_Z and want == T_Q:
+            return '(inject_Z %s)' % text
+        if have == TL(T_Z) and want == TL(T_Q):
+            return '(map inject_Z %s)' % text
+        die(node, 'type %s where %s is expected' % (have, want))
+
+    def unify(self, a, b, node):
+        (ta, ya), (tb, yb) = a, b
+        if ya == yb:
+            return ta, tb, ya
+        if {ya, yb} == {T_Z, T_Q}:
+            return self.coerce(ta, ya, T_Q, node), self.coerce(tb, yb, T_Q, node), T_Q
+        die(node, 'operand types %s / %s' % (ya, yb))
+
+    def ref(self, e):
+        if isinstance(e, ast.Name):
+            return e.id
+        if isinstance(e, ast.Attribute) and isinstance(e.value, ast.Name) and e.value.id == 'self':
+            return 'self.' + e.attr
+        return None
+
+    def lookup(self, e, env):
+        r = self.ref(e)
+        if r is None or r not in env:
+            die(e, 'unknown name')
+        text, ty = env[r]
+        if not isinstance(ty, (str, tuple)) or ty in ('EMPTYLIST', 'EMPTYDICT', 'EMPTYSET', 'DEAD', 'KEYFN'):
+            die(e, 'name %s (%s) cannot be used as a value here' % (r, ty))
+        if ty[0] == 'O':
+            die(e, 'name %s may be None here (test it with `is not None` first)' % r)
+        return text, ty
+
+    # ---- expressions
+    def expr(self, e, env):
+        if isinstance(e, ast.Constant):
+            if isinstance(e.value, bool):
+                return ('true' if e.value else 'false'), T_B
+            if isinstance(e.value, int):
+                return '(%d)%%Z' % e.value, T_Z
+            if isinstance(e.value, str) and re.fullmatch(r'[A-Za-z0-9_ .-]*', e.value):
+                return '"%s"%%string' % e.value, T_STR
+            die(e, 'constant')
+        if self.ref(e) is not None:
+            return self.lookup(e, env)
+        if isinstance(e, ast.Attribute) and ('obs:' + e.attr) in env:
+            v = self.expr(e.value, env)
+            f = env['obs:' + e.attr]
+            if f[1][0] == 'F' and f[1][1] == (v[1],):
+                return '(%s %s)' % (f[0], v[0]), f[1][2]
+            die(e, 'observer %s of a %s' % (e.attr, v[1]))
+        if isinstance(e, ast.DictComp):
+            # {k: v for t in it}: dict(pairs) - a later pair with an equal key replaces the value in place (py_dict_c / py_dict_z)
+            if len(e.generators) != 1 or e.generators[0].ifs or e.generators[0].is_async:
+                die(e, 'dictionary comprehension form')
+            g = e.generators[0]
+            it, ety = self.iterable(g.iter, env)
+            env2, pre = self.bind_target(g.target, 'it_', ety, env, e)
+            k, v = self.expr(e.key, env2), self.expr(e.value, env2)
+            if k[1] not in (T_C, T_Z):
+                die(e, 'dictionary keyed by a %s' % (k[1],))
+            dty = TP(k[1], v[1])
+            # built from a set: the insertion order is arbitrary - only lookups (d[k], d.get) are meaningful ('U')
+            return ('(py_dict_%s (map (fun it_ => %s(%s, %s)) %s))' % ('c' if k[1] == T_C else 'z', pre, k[0], v[0], it),
+                    ('U', dty) if self.is_unordered(g.iter, env) else TL(dty))
+        if isinstance(e, ast.BinOp):
+            a, b = self.expr(e.left, env), self.expr(e.right, env)
+            if isinstance(e.op, ast.Add) and a[1][0] == 'L' and a[1] == b[1]:
+                return '(%s ++ %s)' % (a[0], b[0]), a[1]
+            if isinstance(e.op, ast.Mult) and a[1][0] == 'L' and b[1] == T_Z:
+                return '(py_list_mul %s %s)' % (a[0], b[0]), a[1]
+            ops = {ast.Add: '+', ast.Sub: '-', ast.Mult: '*'}
+            if type(e.op) in ops and a[1] in (T_Z, T_Q) and b[1] in (T_Z, T_Q):
+                ta, tb, ty = self.unify(a, b, e)
+                return '(%s %s %s)%%%s' % (ta, ops[type(e.op)], tb, ty), ty
+            die(e, 'operator %s on %s / %s' % (type(e.op).__name__, a[1], b[1]))
+        if isinstance(e, ast.UnaryOp):
+            if isinstance(e.op, ast.Not):
+                return '(negb %s)' % self.cond(e.operand, env), T_B
+            if isinstance(e.op, ast.USub):
+                a = self.expr(e.operand, env)
+                if a[1] in (T_Z, T_Q):
+                    return '(- %s)%%%s' % (a[0], a[1]), a[1]
+            die(e, 'unary operator')
+        if isinstance(e, ast.BoolOp):
+            parts = [self.cond(v, env) for v in e.values]
+            op = ' && ' if isinstance(e.op, ast.And) else ' || '
+            # python: 'and' binds tighter than 'or', the ast is already nested; both are left-to-right
+            return '(%s)' % op.join(parts), T_B
+        if isinstance(e, ast.Compare):
+            if len(e.ops) != 1:
+                die(e, 'chained comparison')
+            op = e.ops[0]
+            a, b = self.expr(e.left, env), self.expr(e.comparators[0], env)
+            if isinstance(op, (ast.In, ast.NotIn)):
+                if a[1] == T_C and b[1] in (TL(T_C), TS(T_C)):
+                    t = '(cmem %s %s)' % (a[0], b[0])
+                    return (t if isinstance(op, ast.In) else '(negb %s)' % t), T_B
+                die(e, 'membership test on %s / %s' % (a[1], b[1]))
+            if a[1] == T_STR and b[1] == T_STR and isinstance(op, (ast.Eq, ast.NotEq)):
+                t = '(String.eqb %s %s)' % (a[0], b[0])
+                return (t if isinstance(op, ast.Eq) else '(negb %s)' % t), T_B
+            if a[1] not in (T_Z, T_Q) or b[1] not in (T_Z, T_Q):
+                die(e, 'comparison of %s / %s' % (a[1], b[1]))
+            ta, tb, ty = self.unify(a, b, e)
+            if ty == T_Z:
+                forms = {ast.Gt: '(%s <? %s)%%Z' % (tb, ta), ast.GtE: '(%s <=? %s)%%Z' % (tb, ta), ast.Lt: '(%s <? %s)%%Z' % (ta, tb),
+                         ast.LtE: '(%s <=? %s)%%Z' % (ta, tb), ast.Eq: '(%s =? %s)%%Z' % (ta, tb),
+                         ast.NotEq: '(negb (%s =? %s)%%Z)' % (ta, tb)}
+            else:
+                forms = {ast.Gt: '(py_gt %s %s)' % (ta, tb), ast.GtE: '(py_ge %s %s)' % (ta, tb), ast.Lt: '(py_lt %s %s)' % (ta, tb),
+                         ast.LtE: '(py_le %s %s)' % (ta, tb), ast.Eq: '(py_eq %s %s)' % (ta, tb),
+                         ast.NotEq: '(negb (py_eq %s %s))' % (ta, tb)}
+            if type(op) not in forms:
+                die(e, 'comparison operator')
+            return forms[type(op)], T_B
+        if isinstance(e, ast.IfExp):
+            c = self.cond(e.test, env)
+            ta, tb, ty = self.unify(self.expr(e.body, env), self.expr(e.orelse, env), e)
+            return '(if %s then %s else %s)' % (c, ta, tb), ty
+        if isinstance(e, ast.Subscript):
+            sl = e.slice
+            if isinstance(sl, ast.Slice) and sl.lower is None and sl.step is None and sl.upper is not None:
+                a, n = self.expr(e.value, env), self.expr(sl.upper, env)
+                if a[1][0] == 'L' and n[1] == T_Z:
+                    return '(py_slice_to %s %s)' % (a[0], n[0]), a[1]
+            if not isinstance(sl, ast.Slice):
+                a, k = self.expr(e.value, env), self.expr(sl, env)
+                if a[1][0] in ('L', 'U') and a[1][1][0] == 'P' and a[1][1][1] == k[1] and k[1] in (T_C, T_Z):
+                    vt = a[1][1][2]
+                    if vt[0] in ('L', 'S'):
+                        dflt = '[]'
+                    elif vt == T_Z:
+                        dflt = '0%Z'
+                    elif vt == T_Q:
+                        dflt = '0%Q'
+                    else:
+                        die(e, 'subscript of a dictionary of %s' % (vt,))
+                    # d[k] with k a key of d (KeyError otherwise: a side condition, like b <> 0 for py_frac)
+                    return '(py_getitem_%s %s %s %s)' % ('c' if k[1] == T_C else 'z', a[0], k[0], dflt), vt
+            die(e, 'subscript')
+        if isinstance(e, ast.List):
+            if not e.elts:
+                die(e, 'empty list outside an accumulation pattern')
+            items = [self.expr(x, env) for x in e.elts]
+            ty = items[0][1]
+            for it in items[1:]:
+                if it[1] != ty:
+                    if {it[1], ty} == {T_Z, T_Q}:
+                        ty = T_Q
+                    else:
+                        die(e, 'list item types')
+            return '[%s]' % '; '.join(self.coerce(t, y, ty, e) for t, y in items), TL(ty)
+        if isinstance(e, ast.ListComp):
+            t = self.comp(e.elt, e.generators, env, e)
+            return t, self._comp_type
+        if isinstance(e, ast.Call):
+            return self.call(e, env)
+        die(e, 'expression')
+
+    def cond(self, e, env):
+        t, ty = self.expr(e, env)
+        if ty[0] == 'L':
+            return '(0 <? py_len %s)%%Z' % t          # truth value of a list: non-empty
+        if ty != T_B:
+            die(e, 'truth value of a %s' % (ty,))      # python truthiness of numbers / lists is not translated
+        return t
+
+    def bind_target(self, target, var, elt_type, env, node):
+        """bind a comprehension / loop target to the items of an iterable; returns (env', prefix of lets)"""
+        env = dict(env)
+        if isinstance(target, ast.Name):
+            nm = self.newname(env, target.id)
+            env[target.id] = (nm, elt_type)
+            return env, 'let %s := %s in ' % (nm, var)
+        if isinstance(target, ast.Tuple) and len(target.elts) == 2 and all(isinstance(x, ast.Name) for x in target.elts) \
+                and elt_type[0] == 'P':
+            a, b = target.elts[0].id, target.elts[1].id
+            pre = ''
+            if a != '_':
+                nm = self.newname(env, a)
+                env[a] = (nm, elt_type[1])
+                pre += 'let %s := fst %s in ' % (nm, var)
+            if b != '_':
+                nm = self.newname(env, b)
+                env[b] = (nm, elt_type[2])
+                pre += 'let %s := snd %s in ' % (nm, var)
+            return env, pre
+        die(node, 'loop target')
+
+    # Coq keywords and every global name the translator emits: a Python variable with such a name is renamed
+    RESERVED = {'at', 'as', 'in', 'if', 'then', 'else', 'fun', 'let', 'match', 'with', 'end', 'fix', 'cofix', 'forall', 'exists',
+                'Type', 'Prop', 'Set', 'return', 'where', 'for', 'using', 'pair', 'fst', 'snd', 'map', 'filter', 'flat_map', 'list',
+                'nat', 'Z', 'Q', 'C', 'cons', 'nil', 'bool', 'true', 'false', 'inl', 'inr', 'sum', 'seq', 'repeat', 'length', 'app',
+                'Some', 'None', 'option', 'negb', 'andb', 'orb', 'inject_Z', 'cmem', 'sort_desc', 'Qle_bool', 'get_n_best', 'res',
+                'unit', 'tt', 'String', 'string', 'pyexn', 'it_'}
+
+    def ident(self, name):
+        """Coq identifier for a Python name: injective (a name that had to be changed carries a quote, which no Python
+           identifier contains)"""
+        k = len(name) - len(name.lstrip('_'))
+        base = name.lstrip('_') or 'x'
+        if not re.fullmatch(r'[A-Za-z][A-Za-z0-9_]*', base):
+            raise Unsupported('identifier %r' % name)
+        if k:
+            return "%s'u%d" % (base, k)
+        if base in self.RESERVED or re.fullmatch(r'py_.*|Py.*|it\d*_', base) or base in {v['coq'] for v in self.known.values()}:
+            return base + "'"
+        return base
+
+    def newname(self, env, ref):
+        """name for a new binding of the Python reference `ref`: never captures another reference that is still in scope"""
+        base = self.ident(ref.replace('self.', 'self_'))
+        used = {t for r2, (t, _) in env.items() if r2 != ref and isinstance(t, str)}
+        nm, n = base, 0
+        while nm in used:
+            n += 1
+            nm = "%s'%d" % (base, n)
+        return nm
+
+    def iterable(self, e, env):
+        """(coq list text, element type) of something iterated over"""
+        if isinstance(e, ast.Call) and isinstance(e.func, ast.Attribute) and e.func.attr == 'items' and not e.args and not e.keywords:
+            t, ty = self.expr(e.func.value, env)
+            if ty[0] in ('L', 'U') and ty[1][0] == 'P':
+                return t, ty[1]
+            die(e, '.items() of a %s' % (ty,))
+        t, ty = self.expr(e, env)
+        if ty[0] in ('L', 'S'):
+            return t, ty[1]
+        die(e, 'iteration over a %s' % (ty,))
+
+    _comp_type = None
+
+    def comp(self, elt, generators, env, node, depth=0):
+        """[elt for t in it if c ..] -> map (fun x => elt) (filter (fun x => c) it) ; several generators -> flat_map"""
+        g = generators[0]
+        if g.is_async:
+            die(node, 'async comprehension')
+        it, ety = self.iterable(g.iter, env)
+        var = 'it%d_' % depth if depth else 'it_'
+        env2, pre = self.bind_target(g.target, var, ety, env, node)
+        src = it
+        if g.ifs:
+            c = ' && '.join(self.cond(x, env2) for x in g.ifs)
+            src = '(filter (fun %s => %s%s) %s)' % (var, pre, c if len(g.ifs) == 1 else '(%s)' % c, it)
+        unordered = self.is_unordered(g.iter, env)
+        if len(generators) == 1:
+            t, ty = self.expr(elt, env2)
+            self._comp_type = TS(ty) if unordered else TL(ty)
+            return '(map (fun %s => %s%s) %s)' % (var, pre, t, src)
+        inner = self.comp(elt, generators[1:], env2, node, depth + 1)
+        if unordered:
+            self._comp_type = TS(self._comp_type[1])
+        return '(flat_map (fun %s => %s%s) %s)' % (var, pre, inner, src)
+
+    def is_unordered(self, it, env):
+        """the iterable is a set (or an unordered dictionary): its iteration order is not translated"""
+        try:
+            if isinstance(it, ast.Call) and isinstance(it.func, ast.Attribute) and it.func.attr in ('items', 'values', 'keys'):
+                ty = self.expr(it.func.value, env)[1]
+            else:
+                ty = self.expr(it, env)[1]
+        except Unsupported:
+            return False
+        return ty[0] in ('S', 'U')
+
+    def call(self, e, env):
+        fn = e.func
+        name = ast.unparse(fn)
+        kw = {k.arg: k.value for k in e.keywords}
+        if None in kw:
+            die(e, '** arguments')
+        args = e.args
+        if any(isinstance(a, ast.Starred) for a in args):
+            die(e, '* arguments')
+        if name == 'Fraction' and len(args) == 2 and not kw:
+            a, b = self.expr(args[0], env), self.expr(args[1], env)
+            return '(py_frac %s %s)' % (self.coerce(a[0], a[1], T_Q, e), self.coerce(b[0], b[1], T_Q, e)), T_Q
+        if name == 'len' and len(args) == 1 and not kw:
+            a = self.expr(args[0], env)
+            if a[1][0] == 'L':
+                return '(py_len %s)' % a[0], T_Z
+            die(e, 'len of a %s' % (a[1],))
+        if name == 'sum' and len(args) == 1 and not kw and isinstance(args[0], ast.Call) and isinstance(args[0].func, ast.Attribute) \
+                and args[0].func.attr == 'values' and not args[0].args and not args[0].keywords:
+            a = self.expr(args[0].func.value, env)
+            if a[1][0] == 'L' and a[1][1][0] == 'P' and a[1][1][2] == T_Q:
+                return '(py_sum_values %s)' % a[0], T_Q
+            die(e, 'sum of the values of a %s' % (a[1],))
+        if name == 'votelib.util.sorted_votes' and len(args) == 1 and not kw:
+            a = self.expr(args[0], env)
+            if a[1] == VOTES:
+                return '(sort_desc Qle_bool %s)' % a[0], VOTES
+            die(e, 'sorted_votes of a %s' % (a[1],))
+        if name == 'votelib.evaluate.core.get_n_best' and len(args) == 2 and not kw:
+            a, n = self.expr(args[0], env), self.expr(args[1], env)
+            if a[1] == VOTES and n[1] == T_Z:
+                return '(get_n_best Qle_bool %s (Z.to_nat %s))' % (a[0], n[0]), TL(T_RES)
+            die(e, 'get_n_best of a %s / %s' % (a[1], n[1]))
+        if name == 'range' and len(args) == 1 and not kw:
+            a = self.expr(args[0], env)
+            if a[1] == T_Z:
+                return '(py_range %s)' % a[0], TL(T_Z)
+            die(e, 'range of a %s' % (a[1],))
+        if name in ('max', 'min') and len(args) == 2 and not kw:
+            ta, tb, ty = self.unify(self.expr(args[0], env), self.expr(args[1], env), e)
+            if ty == T_Z:
+                return '(Z.%s %s %s)' % (name, ta, tb), T_Z
+            if ty == T_Q:
+                return '(py_%s %s %s)' % (name, ta, tb), T_Q
+            die(e, '%s of %s' % (name, ty))
+        if len(args) == 1 and not kw and (name in ('max', 'min') or (
+                isinstance(fn, ast.IfExp) and {ast.unparse(fn.body), ast.unparse(fn.orelse)} <= {'max', 'min'})):
+            a = self.expr(args[0], env)
+            if a[1] != TL(T_Q):
+                die(e, 'max / min of a %s' % (a[1],))
+            if isinstance(fn, ast.IfExp):
+                return '(if %s then (py_%s_list %s) else (py_%s_list %s))' % (
+                    self.cond(fn.test, env), ast.unparse(fn.body), a[0], ast.unparse(fn.orelse), a[0]), T_Q
+            return '(py_%s_list %s)' % (name, a[0]), T_Q
+        if name in ('frozenset', 'set') and len(args) == 1 and not kw and isinstance(args[0], ast.GeneratorExp):
+            t = self.comp(args[0].elt, args[0].generators, env, e)
+            return t, TS(self._comp_type[1])
+        # list(sorted(S, key=f)) / sorted(S, key=f): a permutation of S; the order is NOT translated (result typed as a set)
+        if name == 'list' and len(args) == 1 and not kw and isinstance(args[0], ast.Call) and ast.unparse(args[0].func) == 'sorted':
+            return self.call(args[0], env)
+        if name == 'sorted' and len(args) == 1 and set(kw) <= {'key', 'reverse'}:
+            a = self.expr(args[0], env)
+            if 'key' in kw:
+                k = self.ref(kw['key'])
+                if k is None or env.get(k, (None, None))[1] != 'KEYFN':
+                    die(e, 'sort key must be a local function')
+            if a[1][0] in ('L', 'S'):
+                self.notes.append('sorted(..) at line %d translated as a permutation (order dropped, result compared as a set)' % e.lineno)
+                return a[0], TS(a[1][1])
+            die(e, 'sorted of a %s' % (a[1],))
+        if isinstance(fn, ast.Attribute) and ('obs:' + fn.attr) in env and not args and not kw:
+            v = self.expr(fn.value, env)
+            f = env['obs:' + fn.attr]
+            if f[1][0] == 'F' and f[1][1] == (v[1],):
+                return '(%s %s)' % (f[0], v[0]), f[1][2]
+            die(e, 'observer %s of a %s' % (fn.attr, v[1]))
+        if isinstance(fn, ast.Attribute) and fn.attr == 'values' and not args and not kw:
+            a = self.expr(fn.value, env)
+            if a[1][0] in ('L', 'U') and a[1][1][0] == 'P':
+                return '(map snd %s)' % a[0], (TL if a[1][0] == 'L' else TS)(a[1][1][2])
+            die(e, 'values of a %s' % (a[1],))
+        if isinstance(fn, ast.Attribute) and fn.attr == 'get' and len(args) == 2 and not kw:
+            a, k, dv = self.expr(fn.value, env), self.expr(args[0], env), self.expr(args[1], env)
+            if a[1][0] in ('L', 'U') and a[1][1][0] == 'P' and a[1][1][1] == k[1] and k[1] in (T_C, T_Z) and a[1][1][2] == dv[1]:
+                return '(py_get_%s %s %s %s)' % ('c' if k[1] == T_C else 'z', a[0], k[0], dv[0]), dv[1]
+            die(e, 'get on a %s with a %s key and a %s default' % (a[1], k[1], dv[1]))
+        if name in ('frozenset', 'set') and len(args) == 1 and not kw and not isinstance(args[0], ast.GeneratorExp):
+            a = self.expr(args[0], env)
+            if a[1][0] in ('L', 'S'):
+                return a[0], TS(a[1][1])
+            die(e, 'set of a %s' % (a[1],))
+        # selector.evaluate(votes[, prev_gains=prev_gains])
+        if isinstance(fn, ast.Attribute) and fn.attr == 'evaluate':
+            f = self.expr(fn.value, env)
+            if f[1] == T_SEL and len(args) == 1 and set(kw) <= {'prev_gains'}:
+                v = self.expr(args[0], env)
+                if v[1] != VOTES:
+                    die(e, 'selector applied to a %s' % (v[1],))
+                if 'prev_gains' in kw:
+                    pg = self.expr(kw['prev_gains'], env)
+                    if pg[1] != T_PG:
+                        die(e, 'prev_gains keyword must pass the prev_gains argument through')
+                    self.notes.append('prev_gains pass-through at line %d dropped (the modelled selectors do not read it)' % e.lineno)
+                return '(%s %s)' % (f[0], v[0]), TL(T_C)
+            die(e, 'evaluate call')
+        # translated function of this unit
+        if isinstance(fn, ast.Name) and fn.id in self.known and fn.id not in env:
+            k = self.known[fn.id]
+            if kw or len(args) > len(k['params']):
+                die(e, 'argument list of %s' % fn.id)
+            out = []
+            for i, (pn, pt, pd) in enumerate(k['params']):
+                if i < len(args):
+                    a = self.expr(args[i], env)
+                    out.append(self.coerce(a[0], a[1], pt, e))
+                elif pd is not None:
+                    out.append(pd)
+                else:
+                    die(e, 'missing argument %s' % pn)
+            if k['raises']:
+                die(e, 'call of a raising function inside an expression')
+            return '(%s %s)' % (k['coq'], ' '.join(out)), k['ret']
+        # function-typed name / attribute
+        if self.ref(fn) is not None and not kw:
+            f = self.lookup(fn, env)
+            if f[1][0] == 'F' and len(f[1][1]) == len(args):
+                out = []
+                for a, pt in zip(args, f[1][1]):
+                    x = self.expr(a, env)
+                    out.append(self.coerce(x[0], x[1], pt, e))
+                return '(%s %s)' % (f[0], ' '.join(out)), f[1][2]
+        die(e, 'call')
+
+    # ---- statements
+    def wrap(self, text):
+        return '(inl %s)' % text if self.raises else text
+
+    def finish(self, e, env):
+        t, ty = self.expr(e, env)
+        if self.ret_type is not None:
+            if ty[0] == 'S' and self.ret_type[0] == 'S' and ty[1] == self.ret_type[1]:
+                pass
+            else:
+                t = self.coerce(t, ty, self.ret_type, e)
+        else:
+            self.ret_type = ty
+        return self.wrap(t)
+
+    def block(self, stmts, env, final):
+        stmts = [s for s in stmts if not _is_doc(s)]
+        if not stmts:
+            if final is None:
+                die(ast.Pass(), 'control falls off the end of the function')
+            return final(env)
+        s, rest = stmts[0], stmts[1:]
+        if isinstance(s, ast.Return):
+            if rest:
+                die(s, 'return form')
+            if self.reach is not None:
+                return 'None'            # the function returns before the extracted local is assigned
+            if s.value is None:
+                die(s, 'return form')
+            return self.finish(s.value, env)
+        ap = self.append_stmt(s)
+        if ap is not None:
+            r, item = ap
+            if r not in env:
+                die(s, 'unknown name')
+            env = dict(env)
+            t, ty = self.expr(item, env)
+            nm = self.newname(env, r)
+            if env[r][1] == 'EMPTYLIST':
+                env[r] = (nm, TL(ty))
+                self.fresh.add(r)
+                return 'let %s := [%s] in\n  %s' % (nm, t, self.block(rest, env, final))
+            cur = self.lookup(s.value.func.value, env)
+            if cur[1][0] != 'L' or r not in self.fresh:
+                die(s, 'append to a list that may be shared with the caller')
+            if cur[1] != TL(ty):
+                if cur[1] == TL(T_Q) and ty == T_Z:
+                    t = self.coerce(t, ty, T_Q, s)
+                else:
+                    die(s, 'append of a %s to a %s' % (ty, cur[1]))
+            return 'let %s := (%s ++ [%s]) in\n  %s' % (cur[0], cur[0], t, self.block(rest, env, final))
+        if isinstance(s, ast.Raise):
+            if rest or s.cause is not None or s.exc is None:
+                die(s, 'raise form')
+            exc = s.exc.func if isinstance(s.exc, ast.Call) else s.exc
+            nm = ast.unparse(exc).split('.')[-1]
+            if nm not in EXN or not self.raises:
+                die(s, 'exception class')
+            return '(inr %s)' % EXN[nm]
+        if isinstance(s, ast.FunctionDef):
+            env = dict(env)
+            env[s.name] = (None, 'KEYFN')
+            return self.block(rest, env, final)
+        if isinstance(s, ast.Try):
+            h = s.handlers
+            if len(h) == 1 and not s.orelse and not s.finalbody and h[0].type is not None and ast.unparse(h[0].type) == 'TypeError' \
+                    and len(h[0].body) == 1 and isinstance(h[0].body[0], ast.Raise):
+                self.notes.append('except TypeError handler at line %d not translated: the translated state is the initialised one '
+                                  '(typed values never raise TypeError)' % h[0].lineno)
+                return self.block(s.body + rest, env, final)
+            die(s, 'try statement')
+        if isinstance(s, ast.Assign):
+            if len(s.targets) != 1:
+                die(s, 'multiple assignment')
+            r = self.ref(s.targets[0])
+            if r is None:
+                die(s, 'assignment target')
+            env = dict(env)
+            v = s.value
+            if isinstance(v, ast.List) and not v.elts:
+                env[r] = (None, 'EMPTYLIST')
+                return self.block(rest, env, final)
+            if isinstance(v, ast.Dict) and not v.keys:
+                env[r] = (None, 'EMPTYDICT')
+                return self.block(rest, env, final)
+            if isinstance(v, ast.Call) and ast.unparse(v) == 'set()':
+                env[r] = (None, 'EMPTYSET')
+                return self.block(rest, env, final)
+            t, ty = self.expr(v, env)
+            if self.reach is not None and r == self.reach:
+                self.ret_type = TO(ty)
+                return '(Some %s)' % t       # extraction stops here
+            nm = self.newname(env, r)
+            env[r] = (nm, ty)
+            if isinstance(v, (ast.ListComp, ast.List, ast.BinOp)) or (isinstance(v, ast.Subscript) and isinstance(v.slice, ast.Slice)):
+                self.fresh.add(r)
+            else:
+                self.fresh.discard(r)
+            return 'let %s := %s in\n  %s' % (nm, t, self.block(rest, env, final))
+        if isinstance(s, ast.AugAssign):
+            r = self.ref(s.target)
+            if r is None or not isinstance(s.op, ast.Add):
+                die(s, 'augmented assignment')
+            cur = self.lookup(s.target, env)
+            if cur[1][0] != 'L' or r not in self.fresh:
+                die(s, 'in-place extension of a list that may be shared with the caller')
+            t, ty = self.expr(s.value, env)
+            if ty != cur[1]:
+                die(s, 'extension of a %s by a %s' % (cur[1], ty))
+            env = dict(env)
+            env[r] = (cur[0], cur[1])
+            return 'let %s := (%s ++ %s) in\n  %s' % (cur[0], cur[0], t, self.block(rest, env, final))
+        if isinstance(s, ast.If):
+            return self.if_stmt(s, rest, env, final)
+        if isinstance(s, ast.For):
+            return self.for_stmt(s, rest, env, final)
+        die(s, 'statement')
+
+    def append_stmt(self, s):
+        """X.append(e) as a statement -> (reference of X, e)"""
+        if (isinstance(s, ast.Expr) and isinstance(s.value, ast.Call) and isinstance(s.value.func, ast.Attribute)
+                and s.value.func.attr == 'append' and self.ref(s.value.func.value) is not None
+                and len(s.value.args) == 1 and not s.value.keywords and not isinstance(s.value.args[0], ast.Starred)):
+            return self.ref(s.value.func.value), s.value.args[0]
+        return None
+
+    def assigned(self, stmts):
+        out = []
+        for s in stmts:
+            if _is_doc(s):
+                continue
+            if self.append_stmt(s) is not None:
+                out.append(self.append_stmt(s)[0])
+            elif isinstance(s, ast.Assign) and len(s.targets) == 1 and self.ref(s.targets[0]):
+                out.append(self.ref(s.targets[0]))
+            elif isinstance(s, ast.AugAssign) and self.ref(s.target):
+                out.append(self.ref(s.target))
+            else:
+                die(s, 'statement inside a conditional update')
+        return out
+
+    DROPPABLE_TESTS = ('votelib.evaluate.core.accepts_prev_gains',)
+
+    def branches(self, test, env):
+        """(mk, env_then, env_else): mk(a, b) is the Coq conditional; an `x is (not) None` test on an optional value is a match
+           that gives x its plain type on the not-None path"""
+        if (isinstance(test, ast.Compare) and len(test.ops) == 1 and isinstance(test.ops[0], (ast.Is, ast.IsNot))
+                and isinstance(test.comparators[0], ast.Constant) and test.comparators[0].value is None
+                and self.ref(test.left) in env and isinstance(env[self.ref(test.left)][1], tuple) and env[self.ref(test.left)][1][0] == 'O'):
+            r = self.ref(test.left)
+            text, ty = env[r]
+            some = dict(env)
+            inner = self.newname(env, r + '_v')
+            some[r] = (inner, ty[1])
+            if isinstance(test.ops[0], ast.IsNot):
+                return (lambda a, b: '(match %s with Some %s => %s | None => %s end)' % (text, inner, a, b)), some, env
+            return (lambda a, b: '(match %s with None => %s | Some %s => %s end)' % (text, a, inner, b)), env, some
+        c = self.cond(test, env)
+        return (lambda a, b: '(if %s then %s else %s)' % (c, a, b)), env, env
+
+    def stops(self, stmts):
+        """every path through stmts ends the translated function (return / raise, or - in 'reach' extraction - the target assignment)"""
+        if _terminates(stmts):
+            return True
+        if self.reach is not None:
+            for x in _strip(stmts):
+                if isinstance(x, ast.Assign) and len(x.targets) == 1 and self.ref(x.targets[0]) == self.reach:
+                    return True
+        return False
+
+    def if_stmt(self, s, rest, env, final):
+        if self.stops(s.body):
+            mk, et, ee = self.branches(s.test, env)
+            a = self.block(s.body, et, None)
+            if s.orelse and self.stops(s.orelse):
+                if rest:
+                    die(rest[0], 'unreachable statement')
+                b = self.block(s.orelse, ee, None)
+            else:
+                b = self.block(list(s.orelse) + rest, ee, final)
+            return mk(a, b)
+        if s.orelse and self.stops(s.orelse):
+            mk, et, ee = self.branches(s.test, env)
+            return mk(self.block(list(s.body) + rest, et, final), self.block(s.orelse, ee, None))
+        # conditional update of ONE variable -> let x := if .. ; anything else -> the statements after the conditional are
+        # translated once on each path (if c then body; rest else orelse; rest)
+        try:
+            va = sorted(set(self.assigned(s.body)))
+            vb = sorted(set(self.assigned(s.orelse))) if s.orelse else va
+            single = len(va) == 1 and va == vb and (s.orelse or va[0] in env)
+        except Unsupported:
+            single = False
+        if not single:
+            mk, et, ee = self.branches(s.test, env)
+            fresh0 = set(self.fresh)
+            a = self.block(list(s.body) + rest, et, final)
+            self.fresh = set(fresh0)
+            b = self.block(list(s.orelse) + rest, ee, final)
+            return mk(a, b)
+        r = va[0]
+        if not s.orelse and r not in env:
+            die(s, 'conditional definition of %s' % r)
+        res = {}
+
+        def fin(e2):
+            t, ty = e2[r]
+            if ty == 'EMPTYLIST':
+                return '[]'                      # a list still empty on this path
+            if not isinstance(ty, (str, tuple)) or ty in ('EMPTYDICT', 'EMPTYSET', 'DEAD', 'KEYFN'):
+                die(s, 'conditional update of %s' % r)
+            res.setdefault('ty', ty)
+            if res['ty'] != ty:
+                die(s, 'types of %s on the two paths' % r)
+            return t
+        droppable = isinstance(s.test, ast.Call) and ast.unparse(s.test.func) in self.DROPPABLE_TESTS
+        if droppable:
+            mk, et, ee = None, env, env
+        else:
+            mk, et, ee = self.branches(s.test, env)
+        fresh0 = set(self.fresh)
+        a = self.block(s.body, et, fin)
+        fa = r in self.fresh
+        self.fresh = set(fresh0)
+        b = self.block(s.orelse, ee, fin) if s.orelse else fin(ee)
+        fb = r in self.fresh or (not s.orelse and env[r][1] == 'EMPTYLIST')
+        if 'ty' not in res:
+            die(s, 'conditional update of %s gives it no value' % r)
+        nm = self.newname(env, r)
+        env = dict(env)
+        env[r] = (nm, res['ty'])
+        (self.fresh.add if (fa and fb) else self.fresh.discard)(r)
+        if droppable:
+            if a != b:
+                die(s.test, 'introspection test with different paths')
+            self.notes.append('test %s at line %d dropped: both paths translate to the same term' % (ast.unparse(s.test), s.lineno))
+            return 'let %s := (%s) in\n  %s' % (nm, a, self.block(rest, env, final))
+        return 'let %s := %s in\n  %s' % (nm, mk(a, b), self.block(rest, env, final))
+
+    def for_stmt(self, s, rest, env, final):
+        if s.orelse:
+            die(s, 'for-else')
+        body = [x for x in s.body if not _is_doc(x)]
+        it, ety = self.iterable(s.iter, env)
+        # X = [] ... for v in it: ..; X.append(e)
+        last = body[-1] if body else None
+        if (isinstance(last, ast.Expr) and isinstance(last.value, ast.Call) and isinstance(last.value.func, ast.Attribute)
+                and last.value.func.attr == 'append' and self.ref(last.value.func.value) in env
+                and env[self.ref(last.value.func.value)][1] == 'EMPTYLIST' and len(last.value.args) == 1 and not last.value.keywords):
+            x = self.ref(last.value.func.value)
+            if _mentions(body[:-1] + [last.value.args[0], s.iter], x):
+                die(s, 'accumulator read inside its own loop')
+            env2, pre = self.bind_target(s.target, 'it_', ety, env, s)
+            got = {}
+
+            def fin(e2):
+                t, ty = self.expr(last.value.args[0], e2)
+                got['ty'] = ty
+                return t
+            inner = self.block(body[:-1], env2, fin)
+            nm = self.newname(env, x)
+            env = dict(env)
+            env[x] = (nm, (TS if self.is_unordered(s.iter, env) else TL)(got['ty']))
+            self.fresh.add(x)
+            return 'let %s := (map (fun it_ => %s%s) %s) in\n  %s' % (nm, pre, inner, it, self.block(rest, env, final))
+        # D = {} [S = set()] ... for k, v in src.items(): if c: D[k] = v [else: S.add(k)]
+        if (len(body) == 1 and isinstance(body[0], ast.If) and isinstance(s.target, ast.Tuple) and len(s.target.elts) == 2
+                and all(isinstance(t_, ast.Name) for t_ in s.target.elts) and ety[0] == 'P'
+                and isinstance(s.iter, ast.Call) and isinstance(s.iter.func, ast.Attribute) and s.iter.func.attr == 'items'):
+            k, v = s.target.elts[0].id, s.target.elts[1].id
+            iff = body[0]
+            tb = [x for x in iff.body if not _is_doc(x)]
+            ok = (len(tb) == 1 and isinstance(tb[0], ast.Assign) and len(tb[0].targets) == 1
+                  and isinstance(tb[0].targets[0], ast.Subscript) and self.ref(tb[0].targets[0].value) in env
+                  and env[self.ref(tb[0].targets[0].value)][1] == 'EMPTYDICT'
+                  and isinstance(tb[0].targets[0].slice, ast.Name) and tb[0].targets[0].slice.id == k
+                  and isinstance(tb[0].value, ast.Name) and tb[0].value.id == v)
+            if not ok:
+                die(iff, 'loop body is not a dictionary filter')
+            d = self.ref(tb[0].targets[0].value)
+            env = dict(env)
+            eb = [x for x in iff.orelse if not _is_doc(x)]
+            if eb:
+                okb = (len(eb) == 1 and isinstance(eb[0], ast.Expr) and isinstance(eb[0].value, ast.Call)
+                       and isinstance(eb[0].value.func, ast.Attribute) and eb[0].value.func.attr == 'add'
+                       and self.ref(eb[0].value.func.value) in env and env[self.ref(eb[0].value.func.value)][1] == 'EMPTYSET'
+                       and len(eb[0].value.args) == 1 and isinstance(eb[0].value.args[0], ast.Name) and eb[0].value.args[0].id == k)
+                if not okb:
+                    die(iff, 'else branch of the dictionary filter')
+                env[self.ref(eb[0].value.func.value)] = (None, 'DEAD')     # the complement set: not translated, any later use stops the translation
+            if _mentions([iff.test, s.iter], d):
+                die(s, 'accumulator read inside its own loop')
+            env2, pre = self.bind_target(s.target, 'it_', ety, env, s)
+            c = self.cond(iff.test, env2)
+            nm = self.newname(env, d)
+            env[d] = (nm, ('U', ety) if self.is_unordered(s.iter, env) else TL(ety))
+            return 'let %s := (filter (fun it_ => %s%s) %s) in\n  %s' % (nm, pre, c, it, self.block(rest, env, final))
+        die(s, 'for loop')
+
+
+def _strip(stmts):
+    return [s for s in stmts if not _is_doc(s)]
+
+
+def _check_ctor(cd, attrs, special):
+    """every used attribute is stored by __init__ exactly once, unconditionally, as the constructor argument of the same
+       name (or as the exact expression listed in special)"""
+    init = {m.name: m for m in cd.body if isinstance(m, ast.FunctionDef)}.get('__init__')
+    if init is None:
+        if attrs:
+            die(cd, 'class without __init__ but attributes %s used' % attrs)
+        return
+    params = [a.arg for a in init.args.args[1:]]
+    stores = {}
+    for n in ast.walk(init):
+        tg = []
+        if isinstance(n, ast.Assign):
+            tg = n.targets
+        elif isinstance(n, (ast.AugAssign, ast.AnnAssign)):
+            tg = [n.target]
+        for t in tg:
+            if isinstance(t, ast.Attribute) and isinstance(t.value, ast.Name) and t.value.id == 'self':
+                stores.setdefault(t.attr, []).append(n)
+    top = set(id(s) for s in init.body)
+    for a in attrs:
+        if special.get(a) == '*':
+            continue       # the definition is a function of the STORED attribute, however the constructor computes it
+        st_ = stores.get(a, [])
+        if len(st_) != 1 or id(st_[0]) not in top or not isinstance(st_[0], ast.Assign):
+            die(init, 'attribute %s is not stored exactly once at the top level of __init__' % a)
+        want = special.get(a, a)
+        if ast.unparse(st_[0].value) != want:
+            die(st_[0], 'attribute %s is not the constructor argument (%s expected)' % (a, want))
+        if a not in params and a not in special:
+            die(init, 'no constructor argument %s' % a)
+
+
+def _find_comp(fd, target):
+    """the list comprehension returned by fd (target None) or assigned to the local `target`; plus the top-level statement index"""
+    found = []
+    for i, s in enumerate(fd.body):
+        for n in ast.walk(s):
+            if target is None and isinstance(n, ast.Return) and isinstance(n.value, ast.ListComp):
+                found.append((i, n.value))
+            if target is not None and isinstance(n, ast.Assign) and len(n.targets) == 1 and isinstance(n.targets[0], ast.Name) \
+                    and n.targets[0].id == target and isinstance(n.value, ast.ListComp):
+                found.append((i, n.value))
+    if len(found) != 1:
+        die(fd, 'exactly one list comprehension %s expected, %d found' % ('returned' if target is None else 'assigned to ' + target, len(found)))
+    return found[0]
+
+
+def _find_filter_loop(fd, target):
+    found = [(i, s) for i, s in enumerate(fd.body) if isinstance(s, ast.For) and len(_strip(s.body)) == 1 and isinstance(_strip(s.body)[0], ast.If)
+             and any(isinstance(n, ast.Subscript) and isinstance(n.value, ast.Name) and n.value.id == target and isinstance(n.ctx, ast.Store)
+                     for n in ast.walk(s))]
+    if len(found) != 1:
+        die(fd, 'exactly one loop filling %s expected, %d found' % (target, len(found)))
+    return found[0]
+
+
+FIXED_NAMES = ('len', 'sum', 'range', 'max', 'min', 'frozenset', 'set', 'list', 'sorted', 'Fraction', 'votelib', 'self')
+
+
+def _rebound_names(tree):
+    """names among FIXED_NAMES that the module binds to something else than what the translator reads them as: any assignment,
+       definition, parameter or import of the name anywhere in the file - except `from fractions import Fraction`, `import votelib...`
+       and `self` as the first parameter of a method"""
+    bad = set()
+    for n in ast.walk(tree):
+        if isinstance(n, ast.Name) and isinstance(n.ctx, (ast.Store, ast.Del)) and n.id in FIXED_NAMES:
+            bad.add(n.id)
+        elif isinstance(n, (ast.FunctionDef, ast.AsyncFunctionDef, ast.ClassDef)):
+            if n.name in FIXED_NAMES:
+                bad.add(n.name)
+            if not isinstance(n, ast.ClassDef):
+                a = n.args
+                allargs = a.posonlyargs + a.args + a.kwonlyargs + ([a.vararg] if a.vararg else []) + ([a.kwarg] if a.kwarg else [])
+                for i, x in enumerate(allargs):
+                    if x.arg in FIXED_NAMES and not (x.arg == 'self' and i == 0):
+                        bad.add(x.arg)
+        elif isinstance(n, ast.Import):
+            for al in n.names:
+                bound = al.asname or al.name.split('.')[0]
+                if bound in FIXED_NAMES and not (al.asname is None and al.name.split('.')[0] == 'votelib'):
+                    bad.add(bound)
+        elif isinstance(n, ast.ImportFrom):
+            for al in n.names:
+                bound = al.asname or al.name
+                if bound in FIXED_NAMES and not (n.module == 'fractions' and al.name == 'Fraction' and al.asname is None and n.level == 0):
+                    bad.add(bound)
+        elif isinstance(n, ast.ExceptHandler) and n.name in FIXED_NAMES:
+            bad.add(n.name)
+        elif isinstance(n, (ast.Global, ast.Nonlocal)):
+            bad.update(x for x in n.names if x in FIXED_NAMES)
+    has_fraction = any(isinstance(n, ast.ImportFrom) and n.module == 'fractions' and any(al.name == 'Fraction' and al.asname is None for al in n.names)
+                       for n in tree.body)
+    if not has_fraction:
+        bad.add('Fraction')
+    return bad
+
+
+def _attr_stores_elsewhere(cd, attrs, allowed):
+    """attributes (among attrs) that a method other than __init__ / the allowed ones assigns"""
+    out = set()
+    for m in cd.body:
+        if isinstance(m, ast.FunctionDef) and m.name != '__init__' and m.name not in allowed:
+            for n in ast.walk(m):
+                if isinstance(n, ast.Attribute) and isinstance(n.ctx, (ast.Store, ast.Del)) and isinstance(n.value, ast.Name) \
+                        and n.value.id == 'self' and n.attr in attrs:
+                    out.add(n.attr)
+    return out
+
+
+def _leading_locals(stmts):
+    """the plain local assignments (x = e, e not an empty accumulator) among the top-level statements, in order"""
+    return [s for s in _strip(stmts) if isinstance(s, ast.Assign) and len(s.targets) == 1 and isinstance(s.targets[0], ast.Name)
+            and not (isinstance(s.value, (ast.List, ast.Dict)) and not (getattr(s.value, 'elts', None) or getattr(s.value, 'keys', None)))
+            and ast.unparse(s.value) != 'set()']
+
+
+def _free_locals(fd, node):
+    """local variables of fd (names stored anywhere in fd outside `node`) that `node` reads, in order of first occurrence"""
+    inside = set(id(n) for n in ast.walk(node))
+    stored = {n.id for n in ast.walk(fd) if isinstance(n, ast.Name) and isinstance(n.ctx, ast.Store) and id(n) not in inside}
+    own = {n.id for n in ast.walk(node) if isinstance(n, ast.Name) and isinstance(n.ctx, ast.Store)}
+    out = []
+    reads = sorted((n for n in ast.walk(node) if isinstance(n, ast.Name) and isinstance(n.ctx, ast.Load)),
+                   key=lambda n: (n.lineno, n.col_offset))
+    for n in reads:
+        if n.id in stored and n.id not in own and n.id not in out:
+            out.append(n.id)
+    return out
+
+
+def _bind_positional(positional, env, locs, targets, node, free=None):
+    """names bound by position, so that renaming a local or a loop variable in the source changes nothing:
+       '@localK' = the K-th plain local assigned before the statement, '@targetK' = the K-th loop / comprehension target,
+       '@free:NAME' = the local NAME wherever it is assigned, '@freeK' = the K-th distinct local variable of the function (a name
+       assigned somewhere in it, not a loop target of the expression) read by the expression, in order of first occurrence"""
+    for cn, r, ty in positional:
+        if r.startswith('@free:'):
+            env[r[len('@free:'):]] = (cn, ty)
+        elif r.startswith('@free'):
+            k = int(r[len('@free'):])
+            if free is None or k >= len(free):
+                die(node, 'free local #%d not found in the expression' % k)
+            env[free[k]] = (cn, ty)
+        elif r.startswith('@local'):
+            k = int(r[len('@local'):])
+            if k >= len(locs):
+                die(node, 'local #%d not found before the statement' % k)
+            env[locs[k].targets[0].id] = (cn, ty)
+        elif r.startswith('@target'):
+            k = int(r[len('@target'):])
+            if targets is None or k >= len(targets) or not isinstance(targets[k], ast.Name):
+                die(node, 'loop target #%d' % k)
+            env[targets[k].id] = (cn, ty)
+        else:
+            die(node, 'positional reference %s' % r)
+
+
+def translate_typed(path, defs, module):
+    """defs: list of dict(name, cls|None, fn, kind, params=[(coq name, python reference, type)], ..) - see TYPED_JOBS"""
+    tree = ast.parse(open(path).read())
+    classes = {n.name: n for n in tree.body if isinstance(n, ast.ClassDef)}
+    funcs = {n.name: n for n in tree.body if isinstance(n, ast.FunctionDef)}
+    rebound = _rebound_names(tree)
+    out, status, known, notes = [], {}, {}, {}
+    for d in defs:
+        name = d['name']
+        try:
+            if d.get('cls'):
+                cd = classes.get(d['cls'])
+                if cd is None:
+                    raise Unsupported('class %s not found' % d['cls'])
+                fd = {m.name: m for m in cd.body if isinstance(m, ast.FunctionDef)}.get(d['fn'])
+                if fd is None:
+                    raise Unsupported('method %s.%s not found' % (d['cls'], d['fn']))
+                if fd.decorator_list:
+                    die(fd, 'decorated method')
+                attrs = [r[5:] for _, r, _ in d['params'] if r.startswith('self.')]
+                _check_ctor(cd, attrs, d.get('ctor', {}))
+                moved = _attr_stores_elsewhere(cd, [a for a in attrs if a not in d.get('ctor', {})], ())
+                if moved:
+                    die(cd, 'attribute(s) %s assigned outside __init__' % sorted(moved))
+                pyparams = [a.arg for a in fd.args.args[1:]]
+            else:
+                fd = funcs.get(d['fn'])
+                if fd is None:
+                    raise Unsupported('function %s not found' % d['fn'])
+                if fd.decorator_list:
+                    die(fd, 'decorated function')
+                pyparams = [a.arg for a in fd.args.args]
+            if fd.args.vararg or fd.args.kwarg or fd.args.kwonlyargs or fd.args.posonlyargs:
+                die(fd, 'parameter list')
+            used = {n.id for n in ast.walk(fd) if isinstance(n, ast.Name)} & rebound
+            if used:
+                die(fd, 'the module rebinds %s, which the translator reads with a fixed meaning' % sorted(used))
+            kind = d['kind']
+            in_handler = set(id(m) for n in ast.walk(fd) if isinstance(n, ast.ExceptHandler) for m in ast.walk(n))
+            raises = kind == 'body' and any(isinstance(n, ast.Raise) and id(n) not in in_handler for n in ast.walk(fd))
+            tx = TX(known, raises)
+            env = {}
+            positional = []      # names bound by position (comprehension / loop targets, leading locals): coq name, type
+            for cn, r, ty in d['params']:
+                if r.startswith('@'):
+                    positional.append((cn, r, ty))
+                    continue
+                if r.startswith('obs:'):
+                    env[r] = (cn, ty)          # attribute / zero-argument method of a candidate object, as a function
+                    continue
+                if not r.startswith('self.') and r not in pyparams:
+                    die(fd, 'no parameter %s' % r)
+                env[r] = (cn, ty)
+            # a method parameter that is not declared is unknown to the translated code (its use stops the translation)
+            if kind == 'body':
+                if d.get('ret') is not None:
+                    tx.ret_type = d['ret']
+                final = None
+                if d.get('result_attr'):
+                    ra = 'self.' + d['result_attr']
+                    def final(e2, ra=ra):     # noqa
+                        if ra not in e2:
+                            die(fd, 'attribute %s is never assigned' % ra)
+                        t, ty = e2[ra]
+                        if tx.ret_type is not None:
+                            t = tx.coerce(t, ty, tx.ret_type, fd)
+                        else:
+                            tx.ret_type = ty
+                        return t
+                text = tx.block(fd.body, env, final)
+                ret = tx.ret_type
+            elif kind in ('comp_if', 'comp'):
+                idx, lc = _find_comp(fd, d.get('target'))
+                if len(lc.generators) != 1 or len(lc.generators[0].ifs) != 1:
+                    die(lc, 'one generator with one condition expected')
+                g = lc.generators[0]
+                tg = g.target.elts if isinstance(g.target, ast.Tuple) else [g.target]
+                _bind_positional(positional, env, _leading_locals(fd.body[:idx]), tg if kind == 'comp_if' else None, lc,
+                                 _free_locals(fd, lc))
+                if kind == 'comp_if':
+                    text, ret = tx.cond(g.ifs[0], env), T_B
+                else:
+                    text, ret = tx.expr(lc, env)
+            elif kind in ('loop_if', 'upto'):
+                idx, loop = _find_filter_loop(fd, d['target'])
+                if kind == 'loop_if':
+                    tg = loop.target.elts if isinstance(loop.target, ast.Tuple) else [loop.target]
+                    _bind_positional(positional, env, _leading_locals(fd.body[:idx]), tg, loop)
+                    text, ret = tx.cond(_strip(loop.body)[0].test, env), T_B
+                else:
+                    tgt = d['target']
+
+                    def final(e2, tgt=tgt):     # noqa
+                        t, ty = e2[tgt]
+                        tx.ret_type = ty
+                        return t
+                    text = tx.block(fd.body[:idx + 1], env, final)
+                    ret = tx.ret_type
+            elif kind == 'reach':
+                tx.reach = d['target']
+                if d.get('target_free_of'):
+                    # the local to extract is named by its role: the k-th local read by the comprehension assigned to <name>
+                    cname_, k = d['target_free_of']
+                    fl = _free_locals(fd, _find_comp(fd, cname_)[1])
+                    if k >= len(fl):
+                        die(fd, 'free local #%d of the comprehension %s' % (k, cname_))
+                    tx.reach = fl[k]
+                text = tx.block(fd.body, env, None)
+                ret = tx.ret_type
+                if ret is None:
+                    die(fd, 'local %s is never assigned' % d['target'])
+            else:
+                raise Unsupported('kind %s' % kind)
+            plist = ' '.join('(%s : %s)' % (cn, coq_type(ty)) for cn, r, ty in d['params'])
+            rty = coq_type(ret) + (' + pyexn' if tx.raises else '')
+            com = ''.join('  (* %s *)\n' % n for n in tx.notes)
+            out.append('%sDefinition %s %s : %s :=\n  %s.' % (com, name, plist, rty, text))
+            status[name] = 'ok'
+            if tx.notes:
+                notes[name] = tx.notes
+            if kind == 'body' and not d.get('cls'):
+                # callable from later definitions of the unit; defaults from the source
+                defaults = [None] * (len(fd.args.args) - len(fd.args.defaults)) + list(fd.args.defaults)
+                ps = []
+                for (cn, r, ty), a, df in zip(d['params'], fd.args.args, defaults):
+                    if r != a.arg:
+                        die(fd, 'parameters of a callable unit function must be declared in source order')
+                    dt = None
+                    if df is not None:
+                        x = TX({}, False).expr(df, {})
+                        dt = TX({}, False).coerce(x[0], x[1], ty, df)
+                    ps.append((cn, ty, dt))
+                known[d['fn']] = dict(coq=name, params=ps, ret=ret, raises=tx.raises)
+        except Unsupported as e:
+            status[name] = 'unsupported: %s' % e
+    missing = [d['name'] for d in defs if status.get(d['name']) != 'ok']
+    return out, status, missing, notes
+
+
+TYPED_HEADER = """(* GENERATED by tools/py2v.py from %s -- do not edit. *)
+From Coq Require Import String.
+From Coq Require Import ZArith QArith List Bool.
+From VL Require Import Prelude.PyDict Prelude.PyNum Prelude.PyList Model.GetNBest.
+Import ListNotations.
+(* votelib.util.sorted_votes(d) is read as [sort_desc Qle_bool d] (Model/GetNBest.v: stable, descending; tied to the code by the
+   C09 correspondence); sum(d.values()) as [py_sum_values d]. *)
+"""
+
+P_THR = ('threshold', 'self.threshold', T_Q)
+P_AE = ('accept_equal', 'self.accept_equal', T_B)
+TYPED_JOBS = [
+    ('Threshold', 'votelib/evaluate/threshold.py', [
+        dict(name='AbsoluteThreshold_accept', cls='AbsoluteThreshold', fn='evaluate', kind='comp_if',
+             params=[P_THR, P_AE, ('n_votes', '@target1', T_Q)]),
+        dict(name='AbsoluteThreshold_evaluate', cls='AbsoluteThreshold', fn='evaluate', kind='body',
+             params=[P_THR, P_AE, ('votes', 'votes', VOTES)]),
+        dict(name='RelativeThreshold_accept', cls='RelativeThreshold', fn='evaluate', kind='comp_if',
+             params=[P_THR, P_AE, ('total', '@local0', T_Q), ('n_votes', '@target1', T_Q)]),
+        dict(name='RelativeThreshold_evaluate', cls='RelativeThreshold', fn='evaluate', kind='body',
+             params=[P_THR, P_AE, ('votes', 'votes', VOTES)]),
+        dict(name='CoalitionMemberBracketer_evaluate', cls='CoalitionMemberBracketer', fn='evaluate', kind='body',
+             params=[('evaluators', 'self.evaluators', TL(TP(T_Z, T_SEL))), ('default', 'self.default', T_SEL),
+                     ('is_coalition', 'obs:is_coalition', TFUN([T_C], T_B)),
+                     ('get_n_coalition_members', 'obs:get_n_coalition_members', TFUN([T_C], T_Z)), ('votes', 'votes', VOTES)]),
+        dict(name='AlternativeThresholds_evaluate', cls='AlternativeThresholds', fn='evaluate', kind='body',
+             params=[('partials', 'self.partials', TL(T_SEL)), ('votes', 'votes', VOTES), ('prev_gains', 'prev_gains', T_PG)],
+             ret=TS(T_C)),
+    ]),
+    ('Approval', 'votelib/evaluate/approval.py', [
+        dict(name='QuotaSelector_test', cls='QuotaSelector', fn='evaluate', kind='loop_if', target='over_quota',
+             params=[P_AE, ('qval', '@local0', T_Q), ('n_votes', '@target1', T_Q)]),
+        dict(name='QuotaSelector_over_quota', cls='QuotaSelector', fn='evaluate', kind='upto', target='over_quota',
+             ctor={'quota_function': 'votelib.component.quota.construct(quota_function)'},
+             params=[('quota_function', 'self.quota_function', TFUN([T_Q, T_Z], T_Q)), P_AE, ('votes', 'votes', VOTES),
+                     ('n_seats', 'n_seats', T_Z)]),
+            dict(name='QuotaSelector_evaluate', cls='QuotaSelector', fn='evaluate', kind='body',
+             ctor={'quota_function': 'votelib.component.quota.construct(quota_function)'},
+             params=[('quota_function', 'self.quota_function', TFUN([T_Q, T_Z], T_Q)), P_AE,
+                     ('on_more_over_quota', 'self.on_more_over_quota', T_STR), ('votes', 'votes', VOTES), ('n_seats', 'n_seats', T_Z)]),
+    ]),
+    ('Openlist', 'votelib/evaluate/openlist.py', [
+        dict(name='ThresholdOpenList_jump_test', cls='ThresholdOpenList', fn='evaluate', kind='comp_if', target='jumping',
+             params=[P_AE, ('threshold', '@free0', T_Q), ('n_votes', '@target1', T_Q)]),
+        dict(name='ThresholdOpenList_threshold', cls='ThresholdOpenList', fn='evaluate', kind='reach', target='threshold', target_free_of=('jumping', 0),
+             ctor={'quota_function': '*'},
+             params=[('jump_fraction', 'self.jump_fraction', TO(T_Q)), ('quota_function', 'self.quota_function', TO(TFUN([T_Q, T_Z], T_Q))),
+                     ('take_higher', 'self.take_higher', T_B), ('votes', 'votes', VOTES), ('n_seats', 'n_seats', T_Z)]),
+        dict(name='ThresholdOpenList_jumping', cls='ThresholdOpenList', fn='evaluate', kind='comp', target='jumping',
+             params=[P_AE, ('threshold', '@free0', T_Q), ('votes', 'votes', VOTES)]),
+    ]),
+]
+
+RANK_TYPED = [
+    dict(name='select_padded', cls=None, fn='select_padded', kind='body',
+         params=[('sequence', 'sequence', TL(T_Q)), ('n', 'n', T_Z), ('pad_with', 'pad_with', T_Q)]),
+    dict(name='Borda_set_n_candidates', cls='Borda', fn='set_n_candidates', kind='body', result_attr='_scores',
+         params=[('base', 'self.base', T_Z), ('n_candidates', 'n_candidates', T_Z)]),
+    dict(name='Borda_scores', cls='Borda', fn='scores', kind='body',
+         ctor={'n_candidates': 'None', '_scores': 'None'},
+         params=[('n_candidates', 'self.n_candidates', T_Z), ('stored_scores', 'self._scores', TL(T_Q)), ('n_ranked', 'n_ranked', T_Z)]),
+    dict(name='SequenceBased_scores', cls='SequenceBased', fn='scores', kind='body',
+         params=[('sequence', 'self.sequence', TL(T_Q)), ('n_ranked', 'n_ranked', T_Z)]),
+]
+
+
 def main():
     repo, outdir = sys.argv[1], sys.argv[2]
     os.makedirs(outdir, exist_ok=True)
@@ -391,20 +1594,39 @@ def main():
     old = open(dst).read() if os.path.exists(dst) else None
     if old != text:
         open(dst, 'w').write(text)
-    # rank scorers
+    # rank scorers: per-rank score expressions (Dowdall ..) + typed translation of select_padded / Borda / SequenceBased
     rel = 'votelib/component/rankscore.py'
     wanted = ['Dowdall', 'Geometric', 'ModifiedBorda', 'FixedTop']
     dst = os.path.join(outdir, 'Rankscore.v')
     try:
         text, status, missing = translate_rankscore(os.path.join(repo, rel), wanted, rel)
+        text = text.replace(HEADER % rel, RANK_HEADER % rel)
+        tdefs, tstatus, tmissing, tnotes = translate_typed(os.path.join(repo, rel), RANK_TYPED, rel)
+        text += '\n' + '\n\n'.join(tdefs) + '\n'
+        status.update(tstatus)
+        missing = missing + tmissing
         st['Rankscore'] = dict(status='ok' if not missing else 'partial', functions=status, missing=missing, source=rel,
-                               note='Borda (stateful set_n_candidates) and SequenceBased (select_padded slicing) are tied by correspondence (C13)')
+                               note='Borda: set_n_candidates and scores are translated for the initialised state (n_candidates, _scores set); '
+                                    'the RuntimeError of an uninitialised scorer is tied by correspondence (C18)', notes=tnotes)
     except (Unsupported, SyntaxError, OSError) as e:
-        text = HEADER % rel
-        st['Rankscore'] = dict(status='failed', reason=str(e), source=rel, missing=wanted)
+        text = RANK_HEADER % rel
+        st['Rankscore'] = dict(status='failed', reason=str(e), source=rel, missing=wanted + [d['name'] for d in RANK_TYPED])
     old = open(dst).read() if os.path.exists(dst) else None
     if old != text:
         open(dst, 'w').write(text)
+    # typed units: thresholds, quota selector test, open-list jump test
+    for unit, rel, defs in TYPED_JOBS:
+        dst = os.path.join(outdir, unit + '.v')
+        try:
+            tdefs, status, missing, tnotes = translate_typed(os.path.join(repo, rel), defs, rel)
+            text = (TYPED_HEADER % rel) + '\n' + '\n\n'.join(tdefs) + '\n'
+            st[unit] = dict(status='ok' if not missing else 'partial', functions=status, missing=missing, source=rel, notes=tnotes)
+        except (Unsupported, SyntaxError, OSError) as e:
+            text = TYPED_HEADER % rel
+            st[unit] = dict(status='failed', reason=str(e), source=rel, missing=[d['name'] for d in defs])
+        old = open(dst).read() if os.path.exists(dst) else None
+        if old != text:
+            open(dst, 'w').write(text)
     json.dump(st, open(os.path.join(outdir, 'STATUS.json'), 'w'), indent=1)
     print(json.dumps(st, indent=1))
 
